@@ -293,13 +293,35 @@ def register(S):
         return ctx.ret(ctx.top_ret())
 
     # ---------------------------------------------------------------- integer helpers
-    @S.pat(r"^core::num::<impl u(8|16|32|64|size)>::saturating_sub$")
-    def saturating_sub(ctx):
+    @S.pat(r"^core::num::<impl u(8|16|32|64|size)>::saturating_(sub|add|mul)$")
+    def saturating_op(ctx):
         a, b = ctx.args
-        if isinstance(a, IntVal) and isinstance(b, IntVal):
-            lo, hi = max(0, a.lo - b.hi), max(0, a.hi - b.lo)
-            return ctx.ret(IntVal(a.ty, lo, hi, None, None, None, a.deps | b.deps, tags=a.tags | b.tags))
-        return ctx.ret(ctx.top_ret())
+        if not isinstance(a, IntVal) or not isinstance(b, IntVal):
+            return ctx.ret(ctx.top_ret())
+        ip, st = ctx.ip, ctx.st
+        a, b = ip.reduce_int(st, a), ip.reduce_int(st, b)
+        op = {"sub": "Sub", "mul": "Mul", "add": "Add"}[ctx.path.rsplit("_", 1)[1]]
+        r = ip.arith(st, op, a, b, wrap=False)
+        ty = a.ty
+        bound = ty.min() if op == "Sub" else ty.max()
+        if ty.min() <= r.lo and r.hi <= ty.max():
+            return ctx.ret(r)
+        if r.hi < ty.min() or r.lo > ty.max():
+            return ctx.ret(IntVal.const(ty, bound))
+        # both outcomes: exact result where it fits, the bound where it saturates
+        s_ok, s_sat = st.copy(), st.copy()
+        okv = r.with_(lo=max(r.lo, ty.min()), hi=min(r.hi, ty.max()))
+        if okv.vals is not None:
+            okv.vals = frozenset(x for x in okv.vals if okv.lo <= x <= okv.hi)
+        okv = okv.fresh()
+        if op == "Sub" and b.is_const():
+            ip.assume_cmp(s_ok, "Ge", ip.current(s_ok, a), b)
+            ip.assume_cmp(s_sat, "Lt", ip.current(s_sat, a), b)
+        else:
+            g = {"op": "saturating_" + op, "a": repr(a), "b": repr(b), "deps": a.deps | b.deps}
+            s_ok.pc.add_guard(dict(g, outcome="exact"))
+            s_sat.pc.add_guard(dict(g, outcome="saturated"))
+        return ctx.ret_states([(s_ok, okv), (s_sat, IntVal.const(ty, bound))])
 
     @S.pat(r"^core::num::<impl u(8|16|32|64|size)>::checked_(sub|mul|add)$")
     def checked_op(ctx):
